@@ -52,8 +52,9 @@ impl QBNumberCast<i32> for f32 {
 impl QBNumberCast<i64> for f32 {
     fn try_cast(&self) -> Result<i64, LintError> {
         if self.is_finite() {
-            let r = self.round();
-            if r >= (MIN_LONG as Self) && r <= (MAX_LONG as Self) {
+            // compare as f64: MAX_LONG is not representable as f32 (it rounds up to 2147483648)
+            let r = self.round() as f64;
+            if r >= (MIN_LONG as f64) && r <= (MAX_LONG as f64) {
                 Ok(r as i64)
             } else {
                 Err(LintError::Overflow)
